@@ -18,7 +18,7 @@ Mods == { <<"vlib_a", "cmds">>, <<"vlib_a", "sub", "cmds">>, <<"vlib_ab", "cmds"
 Names(m) == CASE m = <<"vlib_a", "cmds">> -> {"Foo", "Bar"}
               [] m = <<"vlib_a", "sub", "cmds">> -> {"Qux"}
               [] m = <<"vlib_ab", "cmds">> -> {"Foo", "Baz"}
-              [] m = <<"vlib_c">> -> {"Foo"}
+              [] m = <<"vlib_c">> -> {"Foo", "Variant"}       \* Variant: a subclass of Foo without an execute() of its own
               [] m = <<"xvlib_c">> -> {"Foo", "Bar"}            \* its name ends with "vlib_c": not part of that library either
               [] m = <<"mpilot", "libraries", "eems", "csv", "io">> -> {"EEMSRead", "EEMSWrite"}
               [] m = <<"mpilot", "libraries", "eems", "netcdf", "io">> -> {"EEMSRead", "EEMSWrite"}
